@@ -52,6 +52,8 @@ def place_demo(d):
             target = m.group(1).replace("<repo>/", "").rstrip("/")
         if pkg == "main":
             target = m.group(1).replace("<repo>/", "").rstrip("/") if m else "."
+            if re.search(r"<repo>/" + re.escape(base), text) or re.search(re.escape(base) + r"\s+<repo>/?\s", text):
+                target = "."        # the instructions name the repository root itself
         if target is None:
             raise SystemExit("cannot place " + f)
         if target.endswith(".go"):
